@@ -306,6 +306,19 @@ def run_check(prop_cls, tier, seed, replay=None):
             for rec in recs:
                 rec.setdefault("pkg", be.name)
                 tw.add(rec, sid)
+    # thorough tier: the calls made by the repository's own tests, recorded under the plugin, are judged too
+    fam = getattr(prop, "suite_family", None)
+    if replay is None and fam and (tier == "thorough" or os.environ.get("VERIF_SUITE")):
+        from . import suite
+        recs = suite.collect(prop.id).get(fam[0], [])
+        sid = tw.new_scn({"k": "suite", "note": "recorded from the repository's tests; not replayable as a scenario"})
+        ns = 0
+        for rec in recs:
+            if rec.get("op") in fam[1] and rec.get("pkg") in prop.backends + (("torch",) if prop.id == "C13" else ()):
+                tw.add(rec, sid)
+                ns += 1
+        prop.notes["suite_records"] = ns
+        log("%s: %d records from the repository's tests" % (prop.id, ns))
     tw.close()
     log("%s: %d scenarios -> %d records in %.1fs" % (prop.id, n_scn, tw.total, time.time() - t1))
 
